@@ -93,8 +93,52 @@ def r_dup(ctx, prog, codecs):
         ctx.need(n >= 2, R, '%s: fewer than two protected state updates found' % fname)
 
 
+# ------------------------------------------------------------------ R-COUNT
+def r_count(ctx, prog, codecs):
+    R = 'R-COUNT'
+    ctx.rule(R, 'in each per-symbol decode routine the source-symbol counter is incremented by one exactly under "esi < k", the '
+             'all-symbols / repair counter exactly in the complementary situation it stands for', floor=2)
+    for fam in RS_FAMILY:
+        if fam['codec'] not in codecs:
+            continue
+        f = prog.need_fn(fam['dec'], R)
+        tt = Terms(f)
+        k = L(fld(prog, fam['struct'], 'nb_source_symbols'))
+        for cname, want in (('nb_available_source_symbols', 'src'), ('nb_available_symbols', 'all')):
+            cs = [s2 for s2 in f.all_insts() if s2.op == 'store' and addr_root(tt.term(s2.ops[1])) == ('field', cname)]
+            ok = len(cs) == 1
+            why = 'expected exactly one update of %s, found %d' % (cname, len(cs))
+            if ok:
+                v = tt.term(cs[0].ops[0])
+                inc = v[0] == 'bin' and v[1] == 'add' and ('const', 1) in (v[2], v[3]) and any(is_field_load(x, cname) for x in (v[2], v[3]))
+                atoms = atoms_at(f, tt, cs[0].block)
+                lt = has_atom(atoms, 'ult', ('param', 2), k)
+                other = [a for a in atoms if a[0] == 'cmp' and ('param', 2) in (a[2], a[3]) and not
+                         (a[1] in ('ult',) and a[2] == ('param', 2) and a[3] == k)]
+                if want == 'src':
+                    ok = inc and lt and not other
+                    why = '%s must be incremented by one exactly when esi < nb_source_symbols (guards on esi found: %s)' % (
+                        cname, [(a[1], show(a[2]), show(a[3])) for a in atoms if ('param', 2) in (a[2], a[3])])
+                else:
+                    ok = inc and not lt and not other
+                    why = '%s must be incremented by one for every new symbol' % cname
+            ctx.instance(R, ok, cs[0] if cs else f, '%s:%s' % (fam['dec'], cname), '%s: %s' % (fam['dec'], why))
+    if 3 in codecs or 5 in codecs:
+        f = prog.need_fn(IT, R)
+        tt = Terms(f)
+        k = L(fld(prog, 'of_linear_binary_code_cb', 'nb_source_symbols'))
+        for cname, pred in (('nb_source_symbol_ready', 'ult'), ('nb_repair_symbol_ready', 'uge')):
+            cs = [s2 for s2 in f.all_insts() if s2.op == 'store' and addr_root(tt.term(s2.ops[1])) == ('field', cname)]
+            ok = len(cs) == 1
+            if ok:
+                atoms = atoms_at(f, tt, cs[0].block)
+                ok = has_atom(atoms, pred, ('param', 2), k)
+            ctx.instance(R, ok, cs[0] if cs else f, '%s:%s' % (IT, cname),
+                         '%s: %s must be updated exactly under esi %s nb_source_symbols' % (IT, cname, '<' if pred == 'ult' else '>='))
+
+
 # ------------------------------------------------------------------ R-SETAVAIL
-def r_setavail(ctx, prog, codecs):
+def r_setavail(ctx, prog, codecs, need_order=False):
     R = 'R-SETAVAIL'
     ctx.rule(R, 'of_set_available_symbols of each codec performs, for every index 0..n-1 with a non-NULL entry, the same registration '
              'as the per-symbol routine (one loop over exactly n entries; same stores/counters or a call of the per-symbol routine '
@@ -108,6 +152,9 @@ def r_setavail(ctx, prog, codecs):
         nfield = 'nb_encoding_symbols' if fam in RS_FAMILY else 'nb_total_symbols'
         loops = [l for l in f.loops.values() if l.depth == 1]
         key = fam['setav']
+        if fam in LB_FAMILY and len(loops) > 1:
+            _setavail_multi(ctx, prog, R, fam, f, tt, loops, need_order, eff)
+            continue
         if len(loops) != 1:
             ctx.fail(R, f, key + ':loop', '%s must contain exactly one loop over the n table entries (found %d)' % (key, len(loops)))
             continue
@@ -116,12 +163,39 @@ def r_setavail(ctx, prog, codecs):
         if lr is None:
             ctx.broken(R, '%s: loop shape not recognised' % key)
         nterm = L(fld(prog, fam['struct'], nfield))
-        okr = lr.start == ('const', 0) and lr.step == 1 and lr.pred == 'ult' and lr.bound == nterm and \
-            eff.region_may_write_field(f, lp.blocks, nfield) is None
+        invariant = eff.region_may_write_field(f, lp.blocks, nfield) is None
+        iv0 = tt.term(_V(lr.iv))
+        order = None
+        # the index visited is `iv` (ascending 0..n-1 / descending n-1..0) or `iv - 1` (for (i = n; i-- > 0;))
+        idx_term = iv0
+        if lr.start == ('const', 0) and lr.step == 1 and lr.pred == 'ult' and lr.bound == nterm:
+            order = 'ascending'
+        elif lr.start == nterm and lr.step == -1 and lr.pred in ('ugt', 'ne') and lr.bound == ('const', 0):
+            order = 'descending'
+            idx_term = ('bin', 'add', iv0, ('const', -1))
+        elif lr.step == -1 and lr.pred == 'sge' and lr.bound == ('const', 0) and lr.start in (
+                ('bin', 'sub', nterm, ('const', 1)), ('bin', 'add', nterm, ('const', -1))):
+            order = 'descending'
+        if order is None and lr.step == 1 and lr.pred == 'ult' and lr.bound in (('bin', 'add', nterm, lr.start), ('bin', 'add', lr.start, nterm)):
+            # rotation: i = pos % n for pos in [a, a + n) visits every index exactly once, starting at a
+            rot = ('bin', 'urem', iv0, nterm)
+            uses = [c for c in calls_in_loop(f, lp) if c.callee in (IT, fam['dec'])]
+            if uses and tt.term(uses[0].args[2]) == rot:
+                order = 'rotated (starting at %s)' % show(lr.start)
+                idx_term = rot
+        if order is None and lr.step in (1, -1) and invariant:
+            # a loop we cannot map to a visiting order of 0..n-1: do not guess
+            pass
+        okr = order is not None and invariant
         ctx.instance(R, okr, lr.cmp, key + ':range',
-                     '%s visits "%s"; both submission APIs must see all n = %s entries (0 .. %s-1, step 1, bound not modified in the loop)'
-                     % (key, lr.describe(), nfield, nfield))
-        iv = tt.term(_V(lr.iv))
+                     '%s visits "%s"; both submission APIs must see all n = %s entries exactly once (bound not modified in the loop)'
+                     % (key, lr.describe(), nfield))
+        if need_order and fam in LB_FAMILY:
+            ctx.instance(R, order == 'ascending', lr.cmp, key + ':order',
+                         '%s submits the table in %s order: a source symbol submitted after the repair symbols that determine it is '
+                         'treated as a duplicate of a decoded one (its pointer is dropped, the callback fires for a received symbol)'
+                         % (key, order))
+        iv = idx_term
         tab_i = L(('elem', ('param', 1), iv))
         if fam in RS_FAMILY:
             table = 'available_symbols_tab'
@@ -132,6 +206,12 @@ def r_setavail(ctx, prog, codecs):
             ctx.instance(R, ok, st[0] if st else f, key + ':slot',
                          '%s must store the caller\'s pointer tab[i] itself into %s[i] for every i' % (key, table))
             for cname, need_src in (('nb_available_symbols', False), ('nb_available_source_symbols', True)):
+                # the loop overwrites every slot of the table, so the counters restart from zero
+                resets = [s for s in f.all_insts() if s.op == 'store' and addr_root(tt.term(s.ops[1])) == ('field', cname)
+                          and const_of(s.ops[0]) == 0 and s.block.id not in lp.blocks and f.bdom(s.block, lp.header)]
+                ctx.instance(R, bool(resets), lr.cmp, key + ':' + cname + ':reset',
+                             '%s overwrites all n table slots but does not restart %s from 0: after an earlier submission the counter '
+                             'no longer equals the number of available symbols' % (key, cname))
                 cs = [s for s in stores_in_loop(f, lp) if addr_root(tt.term(s.ops[1])) == ('field', cname)]
                 ok = len(cs) == 1
                 why = 'exactly one increment of %s in the loop' % cname
@@ -171,6 +251,47 @@ def r_setavail(ctx, prog, codecs):
                              (key, show(tt.term(s.ops[0]))))
         rc = returned_constants(prog, f)
         ctx.instance(R, rc == set([OK]), f, key + ':ret', '%s may return %s; on conforming use it returns only OF_STATUS_OK' % (key, sorted(map(str, rc))))
+
+
+def _setavail_multi(ctx, prog, R, fam, f, tt, loops, need_order, eff):
+    """Several loops (e.g. repair symbols first, then source symbols): their ascending ranges must partition 0..n-1 and each must
+    register (cb, tab[i], i) for the non-NULL entries."""
+    key = fam['setav']
+    st = fam['struct']
+    kterm = L(fld(prog, st, 'nb_source_symbols'))
+    nterm = L(fld(prog, st, 'nb_total_symbols'))
+    rank = {('const', 0): 0, kterm: 1, nterm: 2}
+    pieces = []
+    okall = True
+    for lp in loops:
+        lr = loop_range(f, lp, tt)
+        if lr is None or lr.step != 1 or lr.pred != 'ult' or lr.start not in rank or lr.bound not in rank:
+            okall = False
+            continue
+        iv = tt.term(_V(lr.iv))
+        tab_i = L(('elem', ('param', 1), iv))
+        per = [c for c in calls_in_loop(f, lp) if c.callee in (IT, fam['dec'])]
+        good = len(per) == 1
+        if good:
+            args = [tt.term(a) for a in per[0].args]
+            good = args[0] == ('param', 0) and args[1] == tab_i and args[2] == iv and \
+                has_atom(atoms_at(f, tt, per[0].block), 'ne', tab_i, ('const', 0))
+        okall = okall and good
+        pieces.append((rank[lr.start], rank[lr.bound], lp.header.id))
+    cover = sorted(p[:2] for p in pieces)
+    part = okall and cover and cover[0][0] == 0 and cover[-1][1] == 2 and all(cover[i][1] == cover[i + 1][0] for i in range(len(cover) - 1))
+    ctx.instance(R, bool(part), f, key + ':range',
+                 '%s uses %d loops whose ranges do not partition 0 .. n-1 with a registration of every non-NULL entry' % (key, len(loops)))
+    if need_order:
+        # program order of the loops must be ascending in ESI
+        order = [p for p in sorted(pieces, key=lambda p: f.bmap[p[2]].din)]
+        asc = all(order[i][1] <= order[i + 1][0] for i in range(len(order) - 1))
+        ctx.instance(R, asc, f, key + ':order',
+                     '%s submits repair symbols before (some) source symbols: a source symbol submitted after the repair symbols that '
+                     'determine it is treated as a duplicate of a decoded one (its pointer is dropped, the callback fires for a '
+                     'received symbol)' % key)
+    rc = returned_constants(prog, f)
+    ctx.instance(R, rc == set([OK]), f, key + ':ret', '%s may return %s' % (key, sorted(map(str, rc))))
 
 
 class _V(object):
@@ -272,6 +393,37 @@ def r_complete(ctx, prog, codecs):
                              '%s: decoding_finished must only be set to true, and only when all k source symbols are available '
                              '(nb_available_source_symbols == k) or %s returned OK' % (f.name, fam['core']))
         ctx.need(n >= 2, R, '%s: fewer than two stores to decoding_finished' % fam['name'])
+        # the converse: whenever the source counter may have grown, "all k sources available" is tested before returning and the
+        # flag set on its true edge (both submission routines), so that is_decoding_complete is true as soon as they are
+        for g in unit.functions.values():
+            gt = Terms(g)
+            incs = [i for i in g.all_insts() if i.op == 'store' and addr_root(gt.term(i.ops[1])) == ('field', 'nb_available_source_symbols')
+                    and gt.term(i.ops[0])[0] == 'bin']
+            if not incs:
+                continue
+            tests = {}
+            for b in g.blocks:
+                for s2, lab in __import__('ofverif.ir', fromlist=['out_edges']).out_edges(b):
+                    if lab and lab[0] == 'br':
+                        for a in __import__('ofverif.ir', fromlist=['cond_atoms']).cond_atoms(gt, lab[1], lab[2]):
+                            if a[0] == 'cmp' and a[1] == 'eq' and set([a[2], a[3]]) == set([nsrc, k]):
+                                tests[b.id] = s2
+            bad = None
+            for inc in incs:
+                reach = g.reachable(inc.block, stop=[g.bmap[t] for t in tests])
+                for r in g.rets():
+                    if r.block.id in reach and r.block.id not in tests:
+                        bad = inc
+            for tb, true_succ in tests.items():
+                sets_blocks = [i.block for i in g.all_insts() if i.op == 'store' and
+                               addr_root(gt.term(i.ops[1])) == ('field', 'decoding_finished') and const_of(i.ops[0]) == 1]
+                reach = g.reachable(true_succ, stop=sets_blocks)
+                if any(r.block.id in reach and r.block not in sets_blocks for r in g.rets()):
+                    bad = g.bmap[tb].term()
+            ctx.instance(R, bad is None, bad or g, '%s:all-sources-implies-finished' % g.name,
+                         '%s updates nb_available_source_symbols but can return without testing whether all k source symbols are now '
+                         'available and setting decoding_finished: of_is_decoding_complete stays false although every source symbol '
+                         'is available' % g.name)
         f = prog.need_fn(fam['complete'], R)
         tt = Terms(f)
         rs = ret_sources(f)
